@@ -324,6 +324,10 @@ def decDigits (n : Nat) : Bytes := decDigitsAux n n
 /-- mod_deflate_cache_file_open(): final name "." decimal pid -/
 def tmpFileName (fn : Bytes) (pid : Nat) : Bytes := fn ++ dot :: decDigits pid
 
+/-- the entity tag mod_deflate sees on a coded static file: '"' digits (http_etag_create():
+    decimal 32-bit hash of inode, size, mtime) '-' label '"' -/
+def staticEtag (d : Bytes) (c : Coding) : Bytes := dquote :: d ++ dash :: c.label ++ [dquote]
+
 /-! ## cache protocol over a model of the cache directory -/
 
 abbrev Pid := Nat
